@@ -28,7 +28,7 @@ from pyvc.concretize import Decoder  # noqa: E402
 from pyvc.contracts import REG, Contract, verify_function  # noqa: E402
 from pyvc.source import Repo  # noqa: E402
 
-CONTRACT_MODULES = ["contracts.validation"]
+CONTRACT_MODULES = ["contracts.validation", "contracts.declaration"]
 NATIVE_PY = os.environ.get("PYVC_NATIVE_PY", "/venv/bin/python")
 REPLAY_DIR = os.path.join(HERE, "replays")
 EVID_DIR = os.path.join(HERE, "evidence")
@@ -85,8 +85,10 @@ def work(task: Tuple[str, str, str, List[str], str]) -> Dict[str, Any]:
     out: Dict[str, Any] = {"relpath": relpath, "qualname": qualname, "verdicts": [], "error": None}
     try:
         repo, ct = load_all()
-        con = REG.contracts[(relpath, qualname)]
         REG.active_regions = set(active_regions)
+        if relpath == "<lemma>":
+            return work_lemma(repo, ct, qualname, prop, tier, out, t0)
+        con = REG.contracts[(relpath, qualname)]
         fr = verify_function(repo, ct, REG, con)
         out.update(sha256=fr.sha256, paths=fr.paths, unsupported=fr.unsupported,
                    assumptions=fr.assumptions, opaque_calls=fr.opaque_calls, inlined=fr.inlined,
@@ -109,11 +111,54 @@ def work(task: Tuple[str, str, str, List[str], str]) -> Dict[str, Any]:
     return out
 
 
+def work_lemma(repo, ct, name: str, prop: str, tier: str, out: Dict[str, Any], t0: float) -> Dict[str, Any]:
+    from pyvc.contracts import LemmaCtx
+    lem = REG.lemmas[name]
+    lc = LemmaCtx(ct, name, lem.props)
+    lem.fn(lc)
+    base = M.base_axioms()
+    out.update(sha256="", paths=0, unsupported=None, assumptions=[], opaque_calls=[], inlined=[],
+               exec_s=0.0, n_obligations=len(lc.obligations), is_lemma=True)
+
+    class _FR:
+        inputs: Dict[str, Any] = {}
+        sha256 = ""
+    con = Contract("<lemma>", name, lem.fn, lem.props)
+    for ob in lc.obligations:
+        v = solve.discharge(ob, base, second_opinion=(tier == "thorough"))
+        rec = {"name": v.name, "kind": v.kind, "status": v.status, "backend": v.backend,
+               "time_s": round(v.time_s, 3), "text": v.text, "props": list(v.prop_ids),
+               "reason": v.reason, "solver_output": v.solver_output}
+        if v.status in (solve.REFUTED, solve.CANDIDATE) and v.model is not None:
+            rec["replays"] = try_replays(None, ct, con, _FR(), ob, v, prop)
+        out["verdicts"].append(rec)
+    out["wall_s"] = round(time.time() - t0, 3)
+    return out
+
+
+def native_search(spec: Dict[str, Any]) -> Dict[str, Any]:
+    """Refutation fallback (bounded zoo enumeration against the same native oracle; DESIGN 2.12)."""
+    with tempfile.NamedTemporaryFile("w", suffix=".json", delete=False) as f:
+        json.dump(spec, f, default=str)
+        path = f.name
+    try:
+        env = dict(os.environ)
+        env["PYTHONPATH"] = HERE
+        p = subprocess.run([NATIVE_PY, os.path.join(HERE, "replay", "search.py"), path],
+                           capture_output=True, text=True, timeout=600, env=env)
+        line = (p.stdout or "").strip().splitlines()
+        return json.loads(line[-1]) if line else {"found": False, "error": (p.stderr or "")[-300:]}
+    except Exception as e:
+        return {"found": False, "error": repr(e)}
+    finally:
+        os.unlink(path)
+
+
 def try_replays(ex, ct, con: Contract, fr, ob, v, prop: str) -> List[Dict[str, Any]]:
     """Concretise the counter-model (and up to MAX_CANDIDATES-1 further models) and replay natively."""
     res: List[Dict[str, Any]] = []
     rmap = getattr(fr, "replay_map", None) or getattr(con, "replay_map", None)
-    inputs = {k: z for k, z in fr.inputs.items() if z is not None}
+    inputs = {k: z for k, z in (ob.inputs or fr.inputs).items() if z is not None}
     model = v.model
     goal = z3.simplify(ob.goal)
     block: List[Any] = []
@@ -123,7 +168,7 @@ def try_replays(ex, ct, con: Contract, fr, ob, v, prop: str) -> List[Dict[str, A
         spec = {"property": prop, "oracle": prop, "obligation": ob.name,
                 "function": f"{con.relpath}:{con.qualname}", "source_sha256": fr.sha256,
                 "clause": ob.text, "solver": v.backend, "solver_output": v.solver_output or v.status,
-                "inputs": decoded}
+                "inputs": decoded, "meta": dict(ob.meta or {}), "kind": ob.kind}
         r = native_replay(spec)
         spec["native"] = r
         res.append(spec)
@@ -136,18 +181,21 @@ def try_replays(ex, ct, con: Contract, fr, ob, v, prop: str) -> List[Dict[str, A
         if not diff:
             break
         block.append(z3.Or(*diff))
-        s = z3.Solver()
+        base = (ex.base + ex.extra_axioms) if ex is not None else M.base_axioms()
+        s = solve._mk_solver(base, False)
         s.set("timeout", 10000)
         for a in ob.assumptions:
-            if not solve.has_quant(a):
-                s.add(a)
+            s.add(a)
         s.add(z3.Not(goal))
         for b in block:
             s.add(b)
-        # diversify registries too: ask for a different set of declared props when possible
-        if s.check() != z3.sat:
+        r = s.check()
+        if r == z3.unsat:
             break
-        model = s.model()
+        try:
+            model = s.model()
+        except z3.Z3Exception:
+            break
     return res
 
 
@@ -157,7 +205,7 @@ def run_check(prop: str, tier: str) -> int:
     seed = int(os.environ.get("VERIF_SEED", "0") or 0)
     repo, ct = load_all()
     cons = [c for c in REG.contracts.values() if prop in c.props and not c.trusted]
-    if not cons:
+    if not cons and not any(prop in l.props for l in REG.lemmas.values()):
         print(f"ERROR no contracts registered for {prop}")
         return 3
     known = [k for k in load_known() if k["property"] == prop]
@@ -166,7 +214,7 @@ def run_check(prop: str, tier: str) -> int:
     known_lines: List[str] = []
     known_report = []
     for k in known:
-        r = native_replay({"oracle": k.get("oracle", prop), "inputs": k["witness"]})
+        r = native_replay({"oracle": k.get("oracle", prop), "inputs": k["witness"], "meta": k.get("meta", {})})
         k["_native"] = r
         if r.get("reproduced"):
             active_regions.append(k["region"])
@@ -174,6 +222,7 @@ def run_check(prop: str, tier: str) -> int:
         known_report.append({"region": k["region"], "what": k["what"], "witness_still_fails": bool(r.get("reproduced")),
                              "detail": r.get("detail", "")[:300]})
     tasks = [(c.relpath, c.qualname, prop, active_regions, tier) for c in cons]
+    tasks += [("<lemma>", l.name, prop, active_regions, tier) for l in REG.lemmas.values() if prop in l.props]
     nproc = min(16, len(tasks)) or 1
     with mp.get_context("fork").Pool(nproc) as pool:
         results = pool.map(work, tasks, chunksize=1)
@@ -191,6 +240,8 @@ def run_check(prop: str, tier: str) -> int:
     assumptions: set = set()
     os.makedirs(REPLAY_DIR, exist_ok=True)
     proved_names: List[str] = []
+    search_cache: Dict[Any, Any] = {}
+    searches: List[Dict[str, Any]] = []
     for res in results:
         if res["error"]:
             errors.append(f"{res['qualname']}: {res['error']}")
@@ -219,6 +270,22 @@ def run_check(prop: str, tier: str) -> int:
                 continue
             reps = v.get("replays") or []
             confirmed = [r for r in reps if r["native"].get("reproduced")]
+            fkey = (res["relpath"], res["qualname"])
+            if not confirmed and v["status"] in (solve.REFUTED, solve.CANDIDATE) and res["relpath"] != "<lemma>":
+                # refutation fallback: one bounded native search per function
+                if fkey not in search_cache:
+                    sp = {"oracle": prop, "function": f"{res['relpath']}:{res['qualname']}",
+                          "meta": (reps[0].get("meta") if reps else {}) or {}}
+                    search_cache[fkey] = native_search(sp)
+                    searches.append({"function": sp["function"], "found": search_cache[fkey].get("found"),
+                                     "cases": search_cache[fkey].get("cases")})
+                hit = search_cache[fkey]
+                if hit.get("found"):
+                    spec = dict(reps[0]) if reps else {"property": prop, "oracle": prop}
+                    spec.update({"obligation": v["name"], "inputs": hit["inputs"], "meta": hit.get("meta", {}),
+                                 "found_by": "bounded native search after the obligation failed",
+                                 "native": {"reproduced": True, "detail": hit.get("detail", "")}})
+                    confirmed = [spec]
             if confirmed:
                 path = write_replay(prop, confirmed[0])
                 violations.append((v["name"], path, True))
@@ -230,6 +297,9 @@ def run_check(prop: str, tier: str) -> int:
                 violations.append((v["name"], path, False))
             else:
                 undecided.append(f"{v['name']}: {v['status']} {v.get('reason', '')}")
+                if os.environ.get("PYVC_DEBUG") and reps:
+                    for r in reps:
+                        print("  DEBUG-REPLAY", v["name"], json.dumps(r.get("native")), json.dumps(r.get("inputs"))[:600])
 
     wall = time.time() - t0
     status = 0
@@ -267,6 +337,7 @@ def run_check(prop: str, tier: str) -> int:
             "undecided": undecided, "violations": [v[0] for v in violations],
             "known_findings_reproduced": known_report,
             "regions_active": active_regions,
+            "refutation_searches": searches,
             "explanation": "contract-based deductive verification of the real source re-read from /repo "
                            "(pyvc: AST symbolic executor -> VCs -> z3/cvc5); see DESIGN.md",
         },
